@@ -472,15 +472,15 @@ func (segstore *SegStore) AddEntry(streamid string, indexName string, flush bool
 			instrumentation.IncrementInt64Counter(instrumentation.WIP_BUFFER_FLUSH_COUNT, 1)
 		}
 
-		matchedPCols, err := segstore.doLogEventFilling(ple, &tsKey)
+		_, err := segstore.doLogEventFilling(ple, &tsKey)
 		if err != nil {
 			log.Errorf("AddEntry: log event filling failed; segkey: %v, err: %v", segstore.SegmentKey, err)
 			return err
 		}
 
-		if matchedPCols {
-			applyStreamingSearchToRecord(segstore, segstore.pqTracker.PQNodes, segstore.wipBlock.blockSummary.RecCount)
-		}
+		// every record is checked against the persistent queries, also one that has none of
+		// their columns: x!=1 and NOT x=1 hold for a record without x
+		applyStreamingSearchToRecord(segstore, segstore.pqTracker.PQNodes, segstore.wipBlock.blockSummary.RecCount)
 
 		for _, cwip := range segstore.wipBlock.colWips {
 			segstore.wipBlock.maxIdx = max(segstore.wipBlock.maxIdx, cwip.cbufidx)
